@@ -85,6 +85,7 @@ class Monitor:
         self.removed = {}         # obj -> times after_remove ran
         self.unreleased_at_acquire = {}
         self.release_started = {}
+        self.creator_fails_for = set()
         self.in_get = set()       # threads between get() entry and return
         self.got_lock = set()     # ... that already held the pool lock once (so may already own an object)
         self.inv_evals = 0
@@ -127,6 +128,8 @@ class Monitor:
                 raise
             except S.SchedAbort:
                 raise
+            except CreatorBoom:
+                raise               # the object factory's own failure, passed on to the caller: not the pool's error
             except BaseException as e:
                 mon.v("pool-get-internal-error:%s" % type(e).__name__, "get() raised %r" % (e,))
                 raise
@@ -181,6 +184,10 @@ class Monitor:
 # ---------------------------------------------------------------------------------------------
 # workload (i): ObjectPool alone
 
+class CreatorBoom(Exception):
+    pass
+
+
 POOL_OPS = ["get_release", "get_destroy", "gar_ok", "gar_raise_destroy", "gar_raise_release", "clear"]
 
 
@@ -217,6 +224,20 @@ def make_pool_program(pool, mon, ops, log, clock=None):
                         pass
                 elif op == "clear":
                     pool.clear()
+                elif op == "adv_expire":
+                    clock.advance((pool.idle_timeout or 0) + 1)      # everything idle in the pool is now past the idle timeout
+                elif op == "get_creator_fails":
+                    # the object factory fails (what a failing client_class constructor does): nothing may be lost on the way
+                    me_ = mon.sch.me()
+                    mon.creator_fails_for.add(me_)          # the factory fails for this thread's checkout only
+                    try:
+                        o = pool.get()
+                    except CreatorBoom:
+                        pass
+                    else:
+                        pool.release(o)
+                    finally:
+                        mon.creator_fails_for.discard(me_)
             except RuntimeError as e:
                 if "Too many objects" not in str(e):
                     raise
@@ -239,6 +260,8 @@ def run_pool_case(case, forced, mode):
     created = []
 
     def creator():
+        if sch.me() in mon.creator_fails_for:
+            raise CreatorBoom()
         o = Obj()
         created.append(o)
         return o
@@ -300,6 +323,7 @@ def run_client_case(case, forced, mode):
     srv.store[b"h1"] = Item(b"v1", 0, 0, srv._next_cas())
     active = {}
     viol_extra = []
+    close_marks = []
 
     class Guarded(base.Client):
         pass
@@ -348,6 +372,9 @@ def run_client_case(case, forced, mode):
                     elif op == "quit":
                         r = pc.quit()
                     elif op == "close":
+                        # connections that pooled clients hold (client.sock assigned) at the moment this close() begins
+                        close_marks.append({id(getattr(c_.sock, "raw", c_.sock))
+                                            for c_ in tuple(pc.client_pool.used) + tuple(pc.client_pool.free) if c_.sock is not None})
                         r = pc.close()
                     outcomes.append((idx, op, "ret", r))
                 except S.SchedAbort:
@@ -382,6 +409,10 @@ def run_client_case(case, forced, mode):
                     viol.append((key, "socket %d closed %d times; outcomes %r" % (s.sid, s.close_count, outcomes)))
             elif id(s) not in idle_socks:
                 key = "socket-neither-pooled-nor-closed" + (":close()-raced-an-in-flight-call" if has_close else "")
+                if has_close and any(id(s) in held for held in close_marks):
+                    # the known finding is about a connection that the in-flight client (re)opens or adopts AFTER close() swept
+                    # the pool; a connection that a pooled client already held when close() began is closed by that close()
+                    key = "socket-neither-pooled-nor-closed:held-by-a-pooled-client-when-close()-began-yet-left-open"
                 viol.append((key, "socket %d is open but belongs to no idle pooled client (free=%d clients); outcomes %r"
                              % (s.sid, len(pool.free), outcomes)))
         # expected results of undisturbed operations
@@ -611,6 +642,11 @@ def cases(tier):
         for a, b, c in itertools.product(["get_release", "get_destroy", "gar_raise_destroy", "clear"], repeat=3):
             if (common.h64((a, b, c, ms, "3t")) % (8 if tier == "quick" else 1)) == 0:
                 out.append((("pool", ((a,), (b,), (c,)), ms, idle), 1))
+    # expiry at checkout combined with a failing object factory (and a second thread checking out meanwhile)
+    for ms in (1, 2, None):
+        for other in ("get_release", "gar_raise_destroy", "clear", "get_creator_fails"):
+            out.append((("pool", (("get_release", "adv_expire", "get_creator_fails"), (other,)), ms, 5), 1))
+        out.append((("pool", (("get_release", "adv_expire", "get_creator_fails", "get_release"),), ms, 5), 0))
     # (ii) PooledClient
     for ms in (1, 2, None):
         for a in CLIENT_OPS:
